@@ -134,13 +134,17 @@ class Report:
         return r
 
     def finding(self, rr, func, construct, fact, file, line, msg, path=None,
-                alt=None):
+                alt=None, alt_func=None):
         """alt: a second identification of the same defect (e.g. by the
         origin of a late exception instead of the statement it passes
         through); a known-findings / reviewed-safe entry may be keyed by
         either"""
         f = Finding(rr.rule, func, construct, fact, file, line, msg, path)
-        f.alt_key = '|'.join([rr.rule, func, alt, fact]) if alt else None
+        # alt_func='*': the alternate key names the construct only, not the
+        # function it sits in (a statement moved into a helper stays the
+        # same triaged site)
+        f.alt_key = '|'.join([rr.rule, alt_func or func, alt, fact]) \
+            if alt else None
         # de-duplicate by key
         for g in rr.findings:
             if g.key == f.key:
@@ -204,6 +208,8 @@ class Report:
         # removes a reviewed site must not make the check fail.
         if os.environ.get('VERIF_STRICT_TABLES') == '1':
             hit = {getattr(f, 'matched_key', f.key) for f in reviewed_hits}
+            hit |= {f.alt_key for f in reviewed_hits
+                    if getattr(f, 'alt_key', None)}
             for k in rmap:
                 if k not in hit:
                     self.error('stale reviewed_safe entry: %s' % k)
